@@ -69,11 +69,12 @@ func TestC21(t *testing.T) {
 	r := kit.Start("C21", "exploration")
 	defer r.Finish()
 	lookups := []string{"s/r/w", "s/r/x", "s/q/w", "s/q/x", "t/a/b", "u/a/b"}
-	r.Rule = "every non-empty subset of the patterns " + fmt.Sprint(c21patterns) + " registered with pairwise distinct settings (idle timeout = 100+index s, in-memory for odd indexes) x every registration order x optional re-registration of the first pattern with new settings; for each resulting configuration every lookup of " + fmt.Sprint(lookups) + " is evaluated under EVERY iteration order of the settings' internal pattern map (all permutations; the range statement in GetBySwampName is rewritten to an owned iterator), and again on a fresh settings object loaded from the persisted settings file (restart), again under every iteration order. Oracle: one answer per (set of registered patterns, name) whatever the registration order, iteration order or restart; it is the registered setting of a most specific matching pattern (exact realm+swamp > one wildcard > two wildcards), the default when nothing matches. Non-trivial = lookups with at least two matching patterns"
+	r.Rule = "every non-empty subset of the patterns " + fmt.Sprint(c21patterns) + " registered with pairwise distinct settings (idle timeout = 100+index s, in-memory for odd indexes) x every registration order x optional re-registration of the first pattern with new settings, or deregistration of one pattern after every name has been looked up once; for each resulting configuration every lookup of " + fmt.Sprint(lookups) + " is evaluated under EVERY iteration order of the settings' internal pattern map (all permutations; the range statement in GetBySwampName is rewritten to an owned iterator), and again on a fresh settings object loaded from the persisted settings file (restart), again under every iteration order. Oracle: one answer per (set of registered patterns, name) whatever the registration order, iteration order or restart; it is the registered setting of a most specific matching pattern (exact realm+swamp > one wildcard > two wildcards), the default when nothing matches. Non-trivial = lookups with at least two matching patterns"
 	r.Assumptions = []string{"between two patterns with one wildcard each (s/r/* vs s/*/w) the property states no order: any answer is accepted as long as it is the same under every order and after restart"}
 	type cfg struct {
 		order []int // indexes into c21patterns, in registration order
 		rereg bool
+		dereg int // index of a pattern deregistered after every name has been looked up once (-1: none)
 	}
 	var cfgs []cfg
 	for mask := 1; mask < 1<<len(c21patterns); mask++ {
@@ -88,7 +89,13 @@ func TestC21(t *testing.T) {
 			for i, j := range pm {
 				o[i] = sub[j]
 			}
-			cfgs = append(cfgs, cfg{o, false}, cfg{o, true})
+			cfgs = append(cfgs, cfg{o, false, -1}, cfg{o, true, -1})
+			if len(o) >= 2 {
+				// deregister each registered pattern in turn (after the lookups have been answered once)
+				for _, d := range o {
+					cfgs = append(cfgs, cfg{o, false, d})
+				}
+			}
 		}
 	}
 	r.Extra["configurations"] = len(cfgs)
@@ -116,6 +123,19 @@ func TestC21(t *testing.T) {
 			pi := c.order[0]
 			reIdle[pi] = 900
 			s.RegisterPattern(c21load(c21patterns[pi]), pi%2 == 1, 900, &settings.FileSystemSettings{WriteIntervalSec: int64(1 + pi), MaxFileSizeByte: 8192})
+		}
+		if c.dereg >= 0 {
+			for _, ln := range lookups {
+				s.GetBySwampName(c21load(ln)) // every name has been resolved once while the pattern was registered
+			}
+			s.DeregisterPattern(c21load(c21patterns[c.dereg]))
+			var rest []int
+			for _, pi := range c.order {
+				if pi != c.dereg {
+					rest = append(rest, pi)
+				}
+			}
+			c.order = rest
 		}
 		sorted := append([]int(nil), c.order...)
 		sort.Ints(sorted)
